@@ -308,7 +308,24 @@ func ruleSkipOrder(p *Prog, r *RuleResult) {
 		if !ok {
 			return false
 		}
-		for _, e := range ph.Edges {
+		// the increments feeding the counter, also through the merge phis of a `continue` / post statement
+		var edgesOf func(ph *ssa.Phi, seen map[*ssa.Phi]bool) []ssa.Value
+		edgesOf = func(ph *ssa.Phi, seen map[*ssa.Phi]bool) []ssa.Value {
+			if seen[ph] {
+				return nil
+			}
+			seen[ph] = true
+			var out []ssa.Value
+			for _, e := range ph.Edges {
+				if q, ok := e.(*ssa.Phi); ok {
+					out = append(out, edgesOf(q, seen)...)
+				} else {
+					out = append(out, e)
+				}
+			}
+			return out
+		}
+		for _, e := range edgesOf(ph, map[*ssa.Phi]bool{}) {
 			if add, ok := e.(*ssa.BinOp); ok && add.Op == token.ADD {
 				if c, ok := constInt(add.Y); ok && c == 1 {
 					for _, bb := range fn.Blocks {
